@@ -212,7 +212,7 @@ def run(repo, chk):
         if not offs:
             continue
         asserts = [e.text for e in ev if e.kind == 'assert']
-        ok = all(o == '-static_size' for o in offs) and 'offset == 0' in asserts
+        ok = all(o == '-static_size' for o in offs) and _efg.assert_text('offset == 0') in asserts
         ss = [src(e.value) for e in ev if e.kind == 'assign' and e.target == 'static_size']
         ok = ok and ss == ['self.array_size(el_type, length)']
         adv = [e for e in ev if e.kind == 'emit' and e.ctor == 'asm.Add' and src(e.args[0]) == 'self.ap']
